@@ -9,6 +9,7 @@ keyword arguments holding non-serialisable values and read back with json.
 """
 import functools
 import itertools
+import copy
 import json
 import math
 import os
@@ -299,11 +300,17 @@ def generated_worker(item):
                     path = os.path.join(out, f"g{n}.{fmt}")
                     tag = f"{nm}:{cname}:{fmt}"
                     cells.append(tag)
+                    snap = copy.deepcopy(d)
                     try:
                         saver(d, path)
                     except Exception as e:
                         errs.append((f"generated:save-raises-{type(e).__name__}:{fmt}:{nm}:{cname}", f"{e} ({tag})"))
                         continue
+                    changed = runs._same(snap, d, "")
+                    if changed:
+                        # writing must not alter what is written (the in-memory results stay in use)
+                        errs.append((f"generated:saving-modifies-the-dictionary:{fmt}:{nm}", f"{changed} ({tag})"))
+                        d = snap
                     try:
                         back = reader(path)
                     except Exception as e:
